@@ -48,6 +48,9 @@ def plan(tier, seed):
         for rep in range(2):
             for proto in ('tlcp', 'tls12', 'tls13'):
                 units.append({'kind': 'live', 'proto': proto, 'weight': 3})
+        for proto in ('tlcp', 'tls12', 'tls13'):
+            for n in (256, 257, 512, 600):
+                units.append({'kind': 'seq', 'proto': proto, 'records': n, 'weight': 3})
     else:
         lens = list(range(0, 16385))
         n = 96
@@ -61,6 +64,9 @@ def plan(tier, seed):
         for rep in range(6):
             for proto in ('tlcp', 'tls12', 'tls13'):
                 units.append({'kind': 'live', 'proto': proto, 'weight': 3})
+        for proto in ('tlcp', 'tls12', 'tls13'):
+            for n in (255, 256, 257, 511, 512, 513, 768, 1024, 4096, 65536, 65537, 66000):
+                units.append({'kind': 'seq', 'proto': proto, 'records': n, 'weight': 3 if n < 5000 else 30})
     return units
 
 
@@ -510,5 +516,89 @@ def u_live(ctx, u):
     cli_ctx.free()
 
 
+def u_seq(ctx, u):
+    """Sequence numbers: (a) tls_seq_num_incr against 64-bit big-endian +1 on every carry-chain length; (b) on a live
+    connection the per-direction sequence numbers in both connection objects, sampled after every record, must be
+    0,1,2,... without repetition (a counter that wraps early presents an old record under its old number again), and a
+    record captured at the start is replayed at distances 1..N including every multiple of 256."""
+    rng, lib = ctx.rng, ctx.lib
+    vals = []
+    for chain in range(0, 8):
+        low = (1 << (8 * chain)) - 1                       # chain trailing 0xff bytes
+        for _ in range(6):
+            nxt = rng.randrange(0, 255) if chain < 7 else rng.randrange(0, 255)
+            high = rng.getrandbits(64) >> (8 * (chain + 1)) << (8 * (chain + 1)) if chain < 7 else 0
+            vals.append((high | (nxt << (8 * chain)) | low) & ((1 << 64) - 1))
+    vals += [0, 1, 254, 255, 256, 65535, 65536, (1 << 32) - 1, (1 << 63) - 1, (1 << 64) - 2]
+    for v in vals:
+        if v == (1 << 64) - 1:
+            continue
+        b = ctx.inbuf(seqb(v))
+        ctx.begin(['seq-incr', hex(v)])
+        lib.tls_seq_num_incr(b)
+        got = int.from_bytes(b.raw(), 'big')
+        ctx.check(got == v + 1, 'seq:increment-wrong', before=hex(v), after=hex(got))
+        ctx.nontrivial('seq-incr', v)
+        b.free()
+    # live trajectory
+    proto = T.PROTOS[u['proto']]
+    creds = T.Creds(ctx, 'c11-' + u['proto'], 1)
+    srv_ctx, cli_ctx = T.pair_ctx(ctx, creds, proto, False)
+    nrec = u['records']
+    for direction in ('c>s', 's>c'):
+        captured = {}
+
+        def on_record(proxy, idx, d, rec, captured=captured, direction=direction):
+            if rec[0] == 23 and d == direction and proxy.eps[0].done.is_set() and proxy.eps[1].done.is_set():
+                captured.setdefault('first', bytes(rec))
+                captured['n'] = captured.get('n', 0) + 1
+        ctx.begin(['seq-live', u['proto'], direction])
+        res = T.run_handshake(ctx, srv_ctx, cli_ctx, seed=rng.randrange(1, 1 << 30), keep_open=True, on_record=on_record)
+        s, c = res['server'], res['client']
+        det = dict(proto=u['proto'], direction=direction)
+        if not ctx.check(s.ret == 1 and c.ret == 1 and not res['hung'], 'live:honest-handshake-failed', **det):
+            T.close_pair(res)
+            continue
+        snd, rcv = (c, s) if direction == 'c>s' else (s, c)
+        fld = 'client_seq_num' if direction == 'c>s' else 'server_seq_num'
+        snd.thread_setup()
+        rcv.thread_setup()
+        seen_s, seen_r = [], []
+        bad = None
+        for i in range(nrec):
+            m = bytes([i & 0xff, (i >> 8) & 0xff]) + b'x' * (i % 5)
+            snd.send(m)
+            r, d, _ = rcv.recv(4096)
+            if not ctx.check(r == 1 and d == m, 'live:honest-record-not-delivered', i=i, ret=r, **det):
+                bad = i
+                break
+            seen_s.append(int.from_bytes(snd.field(fld, 8), 'big'))
+            seen_r.append(int.from_bytes(rcv.field(fld, 8), 'big'))
+        if bad is None:
+            base = seen_s[0]
+            exp = list(range(base, base + nrec))
+            ctx.check(seen_s == exp, 'seq:sender-sequence-not-consecutive:%s' % u['proto'], first_bad=next((i for i in range(nrec) if seen_s[i] != exp[i]), None),
+                      tail=seen_s[-3:], **det)
+            ctx.check(seen_r == exp, 'seq:receiver-sequence-not-consecutive:%s' % u['proto'], first_bad=next((i for i in range(nrec) if seen_r[i] != exp[i]), None),
+                      tail=seen_r[-3:], **det)
+            ctx.check(len(set(seen_s)) == nrec and len(set(seen_r)) == nrec, 'seq:sequence-number-repeated:%s' % u['proto'], **det)
+            ctx.stat('seq_live_records', nrec)
+            ctx.stat_max('seq_live_max', seen_s[-1])
+            ctx.nontrivial('seq-live', u['proto'], direction, nrec)
+            # replay of the very first application record, byte for byte, straight into the receiver's socket
+            first = captured.get('first')
+            if first is not None:
+                px = res['proxy']
+                (px.s if direction == 'c>s' else px.c).sendall(first)
+                r, d, _ = rcv.recv(4096)
+                ctx.check(r != 1, 'live:replay-at-distance-accepted:%s' % u['proto'], distance=nrec, delivered=(d or b'')[:8].hex(), **det)
+                ctx.nontrivial('seq-replay', u['proto'], direction, nrec)
+                ctx.stat('seq_live_replays')
+        T.close_pair(res)
+    ctx.sample({'kind': 'seq', 'proto': u['proto'], 'records': nrec})
+    srv_ctx.free()
+    cli_ctx.free()
+
+
 def run_unit(ctx, u):
-    {'cbc': u_cbc, 'cbc-neg': u_cbc_neg, 'gcm': u_gcm, 'gcm-neg': u_gcm_neg, 'live': u_live}[u['kind']](ctx, u)
+    {'cbc': u_cbc, 'cbc-neg': u_cbc_neg, 'gcm': u_gcm, 'gcm-neg': u_gcm_neg, 'live': u_live, 'seq': u_seq}[u['kind']](ctx, u)
